@@ -173,15 +173,15 @@ ADDS = {
  "C06": " Also composite (tuple / list) alternatives with prefix / extension probes, values built by copy with overrides, and the grouped form `:: (name)`.",
  "C07": " Also record functions reading up to four fields of one argument and called at once, copies of select / filter results, joins of lists of different lengths and element types.",
  "C08": " Also nested lists / tuples inside list flags.",
- "C09": " Also byte-identical twin files in two directories, absolute spellings with redundant segments, imports in format-expression arguments and templates, and imports deferred through a function of a finished helper file.",
+ "C09": " Also byte-identical twin files in two directories, absolute spellings with redundant segments, imports in format-expression arguments and templates, and imports deferred through a function of a finished helper file, and a same-named decoy file of another shape next to the entry file.",
  "C10": " Also reserved words as function / callback parameters, scope templates built as files (incl. a module nested in a module), and 1 in 40 cases as a `ucg repl` session of refused rebindings.",
  "C11": " Also string literals read from a file on disk (1 in 8) and multi-line literals typed into `ucg repl` (1 in 400).",
  "C12": " Also `ns = \"\"` under an inherited default namespace, xmlns declared through attrs, Latin Extended / IPA names.",
- "C13": " Also asserts in the body of a module instantiated by a function applied through map, and one run per case with --no-strict.",
+ "C13": " Also asserts in the body of a module instantiated by a function applied through map, and one run per case with --no-strict, and helper files with asserts imported by several test files (logged and counted once per importing file).",
  "C14": " Also nested evaluation (calls, map/reduce, format expressions, module instantiation, imports) before and between out statements.",
- "C15": " Also stray bytes that make a document invalid UTF-8, files of 1..4 KiB for the raw types, unknown include types on empty files.",
- "C16": " Also lazily linked broken imports, artifacts of files that fail alone, the batch from a directory below spelled with ../, a data file decoded by two importers, and a shared library across two directories with same-named siblings.",
- "C17": " Also call arguments of the wrong type, calls nested in calls, lists bound in their own statement mapped / filtered by named functions elsewhere, missing fields of select results.",
+ "C15": " Also stray bytes that make a document invalid UTF-8, files of 1..4 KiB for the raw types, unknown include types on empty files; every case in strict mode and again under --no-strict.",
+ "C16": " Also lazily linked broken imports, artifacts of files that fail alone, the batch from a directory below spelled with ../, a data file decoded by two importers, and a shared library across two directories with same-named siblings, entry files that instantiate a shared library module whose body has an out, and libraries with both an out and such a module.",
+ "C17": " Also call arguments of the wrong type, calls nested in calls, lists bound in their own statement mapped / filtered by named functions elsewhere, missing fields of select results, failed casts to float and bool inside an int cast.",
  "C18": " Also several variables per program, reads under `ucg [--no-strict] test`, and strict reads of an unset variable typed into `ucg repl`.",
  "C19": " Also reversed slice indices and non-ASCII digits after the integer of parse_int.",
  "C20": " Also edits that move the same text, didChange notifications carrying superseded entries, and six diamonds of disk files whose middle file is opened and closed before the top.",
